@@ -268,8 +268,20 @@ func GenVector(t *rapid.T, label string, dim int, metric string) []float32 {
 		}
 		return v
 	}
-	grid := rapid.IntRange(0, 3).Draw(t, label+"-grid") > 0
+	mode := rapid.IntRange(0, 4).Draw(t, label+"-grid")
+	if mode == 4 {
+		// collinear points: alpha pruning turns them into chain-like sparse graphs, where deleting
+		// inner nodes orphans the rest
+		k := float32(rapid.IntRange(-20, 20).Draw(t, label+"-line"))
+		for i := range v {
+			v[i] = k / float32(i+1)
+		}
+	}
+	grid := mode > 0
 	for i := range v {
+		if mode == 4 {
+			continue
+		}
 		if grid {
 			v[i] = float32(rapid.IntRange(-3, 3).Draw(t, fmt.Sprintf("%s-%d", label, i))) / 2
 		} else {
